@@ -598,6 +598,16 @@ class Gen(object):
 
     def expr(self, c, dim, avail, depth):
         r = self.rng
+        if self.floor_fns and dim == '1' and r.random() < 0.5:
+            d2 = r.choice(['V', 'T', 'U'])
+            f = r.choice(['floor', 'ceiling', 'rem'])
+            imp = [v for v in avail if v['dim'] == d2 and v.get('owner')]
+            num = ci(r.choice(imp)['name']) if imp else self.leaf(c, d2, avail)
+            a = ['divide', ['times', cn(r.choice(['3', '7', '11']), 'dimensionless'), num],
+                 cn(r.choice(NUMS), r.choice(POOL[d2]))]
+            if f == 'rem':
+                return ['rem', a, cn(r.choice(['2', '3']), 'dimensionless')]
+            return [f, a]
         if depth <= 0 or r.random() < 0.25:
             return self.leaf(c, dim, avail)
         k = r.random()
@@ -772,7 +782,8 @@ class Gen(object):
             r.shuffle(maps)
             conns.append({'c1': c1, 'c2': c2, 'maps': maps})
         r.shuffle(conns)
-        doc = {'model_cmeta': None, 'units': unit_defs(), 'comps': comps, 'groups': groups, 'conns': conns}
+        doc = {'model_cmeta': None, 'units': unit_defs(), 'comps': comps, 'groups': groups, 'conns': conns,
+               'flows': [list(x) for lst in self.pairs.values() for x in lst]}
         r.shuffle(doc['units'])
         order = default_order(doc)
         if r.random() < 0.7:
@@ -962,6 +973,44 @@ def ref_solve(doc, seed):
         todo = rest
     vals = {k: si[find(k)] / sc[k] for k in units if find(k) in si}
     return vals, dsi, {k: find(k) for k in units}, chosen, si, (len(todo) == 0)
+
+
+def expr_magnitude(e, env, denv, emag):
+    """largest absolute value met while evaluating e (operands, their own bounds, intermediate results): bounds the
+    rounding noise a cancellation can leave"""
+    try:
+        v = abs(eval_expr(e, env, denv))
+    except (NoValue, OverflowError, ZeroDivisionError, ValueError):
+        v = 0.0
+    if e[0] == 'ci':
+        return max(v, emag.get(e[1], 0.0))
+    if e[0] == 'cn':
+        return v
+    return max([v] + [expr_magnitude(a, env, denv, emag) for a in e[1:] if isinstance(a, list)])
+
+
+def ref_magnitudes(doc, si, dsi, classes):
+    """(comp, var) -> bound (in the variable's own unit) on the magnitudes that enter the computation of its
+    connection class, propagated through the equations"""
+    sc = {(c['name'], v['name']): float(SCALE[v['units']]) for c in doc['comps'] for v in c['vars']}
+    cmag = {}
+    for _ in range(6):
+        for c in doc['comps']:
+            env = {v['name']: si[classes[(c['name'], v['name'])]] for v in c['vars']
+                   if classes[(c['name'], v['name'])] in si}
+            emag = {v['name']: cmag.get(classes[(c['name'], v['name'])], 0.0) for v in c['vars']}
+            denv = {}
+            for vx in c['vars']:
+                for vt in c['vars']:
+                    kk = (classes[(c['name'], vx['name'])], classes[(c['name'], vt['name'])])
+                    if kk in dsi:
+                        denv[(vx['name'], vt['name'])] = dsi[kk]
+            for m in c['maths']:
+                for q in m:
+                    if q[1][0] == 'ci':
+                        cl = classes[(c['name'], q[1][1])]
+                        cmag[cl] = max(cmag.get(cl, 0.0), expr_magnitude(si_numbers(q[2]), env, denv, emag))
+    return {k: cmag.get(cl, 0.0) / sc[k] for k, cl in classes.items()}
 
 
 def si_numbers(e):
@@ -1160,6 +1209,16 @@ def relevant(doc, k, a, b):
     return v1, k1, v2, k2, rel
 
 
+def flow_target(doc, k, a, b):
+    """(component, variable dict) of the receiving end of a map_variables, by the generator's record of the data flow
+    (robust against interface faults applied earlier); falls back to the interfaces"""
+    for ca, va, cb, vb in doc.get('flows', []):
+        if (ca, va, cb, vb) == (k['c1'], a, k['c2'], b) or (ca, va, cb, vb) == (k['c2'], b, k['c1'], a):
+            return cb, find_var(doc, cb, vb)
+    v1, k1, v2, k2, rel = relevant(doc, k, a, b)
+    return (k['c2'], v2) if v2[k2] == 'in' else (k['c1'], v1)
+
+
 def fault_sites(doc):
     """every (class, site) applicable to this valid document"""
     out = []
@@ -1280,14 +1339,12 @@ def apply_fault(doc, f):
     elif k == 'incompatible_units':
         kk = d['conns'][f[1]]
         a, b = kk['maps'][f[2]]
-        v1, k1, v2, k2, rel = relevant(d, kk, a, b)
-        tgt = v2 if v2[k2] == 'in' else v1
+        tc, tgt = flow_target(d, kk, a, b)
         tgt['units'] = 'ampere' if tgt['dim'] != 'T' else 'kilogram'
     elif k == 'definition_through_connection':
         kk = d['conns'][f[1]]
         a, b = kk['maps'][f[2]]
-        v1, k1, v2, k2, rel = relevant(d, kk, a, b)
-        tc, tv = (kk['c2'], v2) if v2[k2] == 'in' else (kk['c1'], v1)
+        tc, tv = flow_target(d, kk, a, b)
         # the ultimate source must have a definition of its own for this to be a second definition
         oc, ov = tv['owner']
         own = find_var(d, oc, ov)
@@ -1300,7 +1357,8 @@ def apply_fault(doc, f):
         kk = d['conns'][f[1]]
         a, b = kk['maps'][f[2]]
         v1, k1, v2, k2, rel = relevant(d, kk, a, b)
-        tc, tv, kt = (kk['c2'], v2, k2) if v2[k2] == 'in' else (kk['c1'], v1, k1)
+        tc, tv = flow_target(d, kk, a, b)
+        kt = k2 if tc == kk['c2'] and tv is v2 else k1
         # a new sibling-or-parent source for the same target
         par = comp_parent(d)
         if kt != 'pub':
@@ -1373,3 +1431,60 @@ def schema_fault_text(doc, kind):
     if kind == 'not_xml':
         return text.replace('</model>', '<model>')
     raise ValueError(kind)
+
+
+# ---- observation of one load in a fresh interpreter (C15) ---------------------------------------------------------
+def observe(path):
+    """everything ordered that a caller can see of load_model(path)"""
+    import cellmlmanip
+    text = open(path).read()
+    rec = impl_record(text)
+    model = rec.pop('model', None)
+    if model is None:
+        return rec
+
+    def q(fn):
+        try:
+            return fn()
+        except Exception as e:
+            return 'raises ' + vlib.err_class(e)
+
+    def strip(s):
+        return re.sub(r'store\d+_', '', s)
+    rec['var_order'] = [v.name for v in model.variables()]
+    rec['eq_order'] = [strip(str(e)) for e in model.equations]
+    rec['states'] = q(lambda: [v.name for v in model.get_state_variables()])
+    rec['derived'] = q(lambda: [v.name for v in model.get_derived_quantities()])
+    rec['derivatives'] = q(lambda: [strip(str(v)) for v in model.get_derivatives()])
+    rec['eqs_for'] = q(lambda: [strip(str(e)) for e in model.get_equations_for(
+        model.get_derivatives() + model.get_derived_quantities())])
+    rec['free'] = q(lambda: model.get_free_variable().name)
+    return rec
+
+
+def observe_main(argv):
+    paths = json.load(open(argv[0]))
+    out = []
+    for p in paths:
+        try:
+            out.append(observe(p))
+        except Exception as e:
+            out.append({'status': 'harness-error', 'msg': repr(e)[:300]})
+    json.dump(out, open(argv[1], 'w'))
+
+
+def run_observer(task):
+    """task = (hash seed, [paths], out file); runs a fresh interpreter"""
+    import subprocess
+    import sys
+    seed, paths, out = task
+    lst = out + '.in'
+    json.dump(paths, open(lst, 'w'))
+    env = dict(os.environ)
+    env['PYTHONHASHSEED'] = str(seed)
+    env['PYTHONPATH'] = '%s:%s' % (vlib.REPO, os.path.join(vlib.VERIF, 'tools'))
+    p = subprocess.run([sys.executable, '-c', 'import sys, loader_gen; loader_gen.observe_main(sys.argv[1:])', lst, out],
+                       env=env, capture_output=True, text=True, timeout=900)
+    if p.returncode != 0:
+        return [{'status': 'harness-error', 'msg': p.stderr[-400:]}] * len(paths)
+    return json.load(open(out))
